@@ -137,7 +137,7 @@ func runC05(c *core.Ctx, crashes bool) {
 			}
 		}
 	}
-	steps := 60 + ch.Int(90)
+	steps := (60 + ch.Int(90)) * c.Scale
 	for i := 0; i < steps; i++ {
 		c.Step("c05")
 		n := w.Nodes[ch.Int(len(w.Nodes))]
